@@ -233,7 +233,7 @@ pub fn def() -> PropertyDef {
         assumptions: vec!["noise model DESIGN.md §4 (key switching term per applied automorphism)", "key-switching semantics as in examples/keyswitching.rs: ciphertext under the other key, key generated by the target key's generator"],
         subs: vec![
             Sub::enumerate("all_elements_and_steps", exhaustive, oracle),
-            Sub::prop("random_galois", 40_000, 600_000, 0.4, gal_case, oracle),
+            Sub::prop("random_galois", 200_000, 1_000_000, 0.4, gal_case, oracle),
         ],
     }
 }
